@@ -169,6 +169,11 @@ run_deflate(struct scn *s)
                 isal_deflate_init(z);
         else
                 isal_deflate_stateless_init(z);
+        /* the caller owns the i/o fields; init leaves them as they were (garbage after our pre-fill) */
+        z->next_in = NULL;
+        z->avail_in = 0;
+        z->next_out = NULL;
+        z->avail_out = 0;
         z->level = s->level;
         z->gzip_flag = s->wrap;
         z->hist_bits = s->hist_bits;
@@ -347,6 +352,8 @@ run_inflate(struct scn *s)
         prefill(st, sizeof(*st), s->prefill);
         outr = vh_region_new(maxao + 64);
         isal_inflate_init(st);
+        st->next_in = NULL;
+        st->avail_in = 0;
         st->crc_flag = s->wrap;
         st->hist_bits = s->hist_bits;
         fprintf(out, "{\"e\":\"Begin\",\"scn\":%d}\n", s->id);
